@@ -253,6 +253,7 @@ def run(item, ctx, tier, seed):
             case = {"score_class": sc, "n": n, "p_pos": pp}
             leaves, mass = 0, 0.0
             exp_pos = 0.0
+            split_mass = {}
 
             def fn(orc):
                 return ds.sample(n if via == "arg" else None, p_pos=pp, rng=orc)
@@ -272,21 +273,27 @@ def run(item, ctx, tier, seed):
                     if not (smp.score_class == sc):
                         ctx.fail("sample-keeps-score-direction", c2, observed=str(smp.score_class), expected=sc)
                     req = orc.requests()
-                    first = req[0]
                     want_p = pp if pp is not None else 0.25
-                    if first[0] != "binomial" or first[1][0] != n or abs(first[1][1] - want_p) > 1e-15:
-                        ctx.fail("class-split-binomial-n-p", c2, observed=first, expected=["binomial", n, want_p])
-                    elif first[2] != len(smp.pos):
-                        ctx.fail("class-split-binomial-n-p", c2, observed=len(smp.pos), expected=first[2])
-                    normals = [r for r in req if r[0] == "normal"]
-                    want_norm = [(1.0, 0.5)] * len(smp.pos) + [(-2.0, 2.0)] * len(smp.neg)
-                    if [tuple(r[1][:2]) for r in normals] != want_norm:
-                        ctx.fail("class-means-and-scales-passed-on", c2, observed=[r[1] for r in normals], expected=want_norm)
+                    split_mass[len(smp.pos)] = split_mass.get(len(smp.pos), 0.0) + orc.prob
+                    # value level: whatever normal variate is requested, the answer menu is {m, m-2s, m+2s}, so a
+                    # positive score must be one of 1 + 0.5*{0,-2,2} and a negative one of -2 + 2*{0,-2,2}
+                    okp = all(any(abs(v - (1.0 + 0.5 * z)) < 1e-12 for z in (0, -2, 2)) for v in np.asarray(smp.pos, dtype=float))
+                    okn = all(any(abs(v - (-2.0 + 2.0 * z)) < 1e-12 for z in (0, -2, 2)) for v in np.asarray(smp.neg, dtype=float))
+                    if not (okp and okn):
+                        ctx.fail("class-means-and-scales-passed-on", c2, observed=[smp.pos, smp.neg],
+                                 expected="pos in {1, 0, 2}, neg in {-2, -6, 2}")
                     exp_pos += orc.prob * len(smp.pos)
             except rngtree.UnownedRNG as e:
                 raise HarnessError(str(e))
             ctx.state()
             ctx.add("leaves", leaves)
+            # the class split is Binomial(n, p_pos): exact distribution over the whole tree (however it is drawn)
+            want_p = pp if pp is not None else 0.25
+            for k_ in range(n + 1):
+                wantm = math.comb(n, k_) * want_p**k_ * (1 - want_p) ** (n - k_)
+                if abs(split_mass.get(k_, 0.0) - wantm) > 1e-9:
+                    ctx.fail("class-split-binomial-n-p", dict(case, positives=k_), observed=split_mass.get(k_, 0.0), expected=wantm)
+                    break
     # random Bernoulli sampling requests binomial(1, p, size=n)
     for n, p in ((1, 0.3), (3, 0.5), (2, 0.0)):
         ds = BernoulliDataset(p=p)
